@@ -103,6 +103,24 @@ def extract_fn(relfile, impl, signature):
     return m.group(1).strip(), body, line
 
 
+def extract_item(relfile, header):
+    """A type definition (enum / struct) named by its exact header line; braces balanced or `;`-terminated."""
+    p = REPO / relfile
+    if not p.exists():
+        raise Undecided(f"anchor lost: {relfile}")
+    text = p.read_text()
+    hits = [m for m in re.finditer(r"^" + re.escape(header) + r"[ \t]*$", text, re.M)]
+    if len(hits) != 1:
+        raise Undecided(f"anchor lost: item {header!r} occurs {len(hits)} times in {relfile}")
+    m = hits[0]
+    line = text[:m.start()].count("\n") + 1
+    if header.rstrip().endswith(";"):
+        return text[m.start():m.end()], line
+    b = text.index("{", m.start())
+    e = _match_brace(text, b)
+    return text[m.start():e + 1], line
+
+
 def _match_brace(text, b):
     depth = 0
     i = b
@@ -140,6 +158,16 @@ def assemble(unit):
     i = 0
     while i < len(src):
         l = src[i]
+        mi = re.match(r"(\s*)//@extract-item\s+(.*?)\s*\|\s*(.*?)\s*$", l)
+        if mi:
+            indent, relfile, header = mi.groups()
+            item, line = extract_item(relfile, header)
+            out.append(f"{indent}// ---- extracted verbatim from {relfile}:{line} (attributes and doc comments above it dropped) ----")
+            out.append(item)
+            out.append(f"{indent}// ---- end of extracted item ----")
+            extracted.append({"file": relfile, "line": line, "impl": "-", "signature": norm(header), "body_sha": __import__("hashlib").sha256(item.encode()).hexdigest()[:12]})
+            i += 1
+            continue
         m = re.match(r"(\s*)//@extract-fn\s+(.*?)\s*\|\s*(.*?)\s*\|\s*(.*?)\s*$", l)
         if not m:
             out.append(l)
@@ -149,11 +177,17 @@ def assemble(unit):
         # optional //@ret and //@spec ... //@end
         ret = None
         spec = []
+        rewrites = []
         i += 1
         while i < len(src):
             mm = re.match(r"\s*//@ret\s+(\w+)\s*$", src[i])
             if mm:
                 ret = mm.group(1)
+                i += 1
+                continue
+            mw = re.match(r"\s*//@rewrite-signature\s+(.*?)\s*=>\s*(.*?)\s*$", src[i])
+            if mw:
+                rewrites.append((mw.group(1), mw.group(2)))
                 i += 1
                 continue
             if re.match(r"\s*//@spec\s*$", src[i]):
@@ -165,6 +199,10 @@ def assemble(unit):
                 continue
             break
         sig, body, line = extract_fn(relfile, impl, signature)
+        for a, b in rewrites:
+            if a not in sig:
+                raise Undecided(f"signature rewrite {a!r} does not apply to {sig!r}")
+            sig = sig.replace(a, b)
         if ret:
             mr = re.search(r"->\s*(.+)$", sig)
             if not mr:
@@ -240,22 +278,26 @@ def run_obligations(vobs, prop):
             for blk in err_blocks:
                 if blk.startswith("error: aborting") or "could not compile" in blk:
                     continue
-                ls = [int(m.group(1)) for m in re.finditer(r"-->\s*" + re.escape(str(f)) + r":(\d+):\d+", blk)]
+                ls = [int(m.group(1)) for m in re.finditer(r"-->\s*" + re.escape(str(f)) + r":(\d+):\d+", blk)][:1]  # primary span only
                 owners = {oid for dl in ls for oid, (lo, hi) in ranges.items() if lo <= dl < hi}
                 if len(owners) >= 1:
                     for oid in owners:
                         hit.setdefault(oid, []).append(blk.split("\n")[0])
                 else:
                     stray.append(blk.split("\n")[0])
-            compile_fail = vr.get("encountered-vir-error") or ("verified" not in vr)
+            compile_fail = vr.get("encountered-vir-error") or ("verified" not in vr) or bool(re.search(r"^error\[E\d+\]", se, re.M)) \
+                or "Could not automatically infer triggers" in se
+            if compile_fail:
+                first = re.search(r"^error.*(\n.*){0,3}", se, re.M)
+                out["undecided"].append(f"assembled Verus file for {unit} does not compile / was not verified: {first.group(0) if first else vr}")
             consistent = (not stray) and (not compile_fail) and vr.get("errors", 0) == len(hit) and vr.get("verified", 0) >= 1
             ids_in_unit = {o["id"] for o in all_unit_obs}
             canaries = [o for o in all_unit_obs if o["kind"] == "canary"]
             for c in canaries:
-                if c["id"] not in hit:
+                if c["id"] not in hit and not compile_fail:
                     consistent = False
                     out["undecided"].append(f"{c['id']}: Verus canary (ensures false) was not rejected")
-            if not consistent and not any("canary" in u for u in out["undecided"]):
+            if not consistent and not compile_fail and not any("canary" in u for u in out["undecided"]):
                 out["undecided"].append(f"verus run for {unit} not attributable: totals {vr}, stray diagnostics {stray[:3]}, rc={rc}")
             for o in obs + [c for c in canaries if c not in obs]:
                 if not consistent:
